@@ -100,3 +100,17 @@ Lemma check_after_completion_returns_at_once :
   | None => False
   end.
 Proof. vm_compute. repeat split. Qed.
+
+(** (5) A caller that obtained a handle just before the worker exits is released with the
+    worker's exit error ("PathSet task exited: idle") although a fresh lookup would have been
+    possible: path-or-error holds, the error is the exit error. *)
+Lemma caller_sees_exit_error :
+  match final 2 [LPeek 0 KCached false; LContains 0 false; LEnsure 0 true 0; LBegin 0; LFetched 0 FEmpty;
+                 LSetErr 0; LComplete 0; LRelease 0;
+                 LPeek 1 KPath false; LEnsure 1 false 0;        (* handle of worker 0 *)
+                 LQuit 0 XIdle; LExitRemove 0; LExitBlock 0; LExitClear 0;
+                 LLoad1 1 false; LCheck 1 true; LLoad2 1 false; LErr 1 (RErr (EExit XIdle))] with
+  | Some s => wts s 1 = ADone (RErr (EExit XIdle)) /\ pmap s = None
+  | None => False
+  end.
+Proof. vm_compute. repeat split. Qed.
